@@ -637,6 +637,21 @@ def free_case(draw, methods=METHODS, mask_kinds=MASK_KINDS):
     if method in ('mahalanobis', 'crossnobis') and draw(st.integers(0, 3)) > 0:
         noise = draw(gen.spd(p))
     mask_kind, mask = draw(mask_for(n, p, mask_kinds))
+    if mask_kind in ('perobs', 'whole+perobs', 'disjoint') and method in ('euclidean', 'mahalanobis') \
+            and (folds is None or draw(st.booleans())):
+        # repeated presentations of (almost) the same stimulus under two labels: the patterns of the
+        # second condition are those of the first plus a small difference.  With channels missing
+        # for single observations the average of the valid products may then be slightly negative --
+        # it is still that average
+        labs = des['labels']
+        rows0 = [i for i, o in enumerate(obs) if o == labs[0]]
+        meas = [list(r) for r in meas]
+        k = 0
+        for i, o in enumerate(obs):
+            if o == labs[1]:
+                src = meas[rows0[k % len(rows0)]]
+                meas[i] = [v + (0.125 if (k + j) % 3 == 0 else 0.0) for j, v in enumerate(src)]
+                k += 1
     case = dict(obs=obs, kind=des['kind'], folds=folds, fold_mode=fold_mode, meas=meas, mask=mask,
                 mask_kind=mask_kind, method=method, weighting=draw(st.sampled_from(['number', 'equal'])),
                 noise=noise, prior=draw(prior()), container=draw(gen.container),
